@@ -45,6 +45,8 @@ class SMCSampler(MCMCSampler):
         )
         self._user_rng = rng
         self.rng = rng or np.random.default_rng()
+        self._current_min_step = None
+        self._restored_min_step = None
         self._adapative_target_efficiency = False
 
     @property
@@ -292,6 +294,10 @@ class SMCSampler(MCMCSampler):
             else:
                 min_step = 1 / max_n_steps
                 self.adaptive_min_step = True
+                if resumed and self._restored_min_step is not None:
+                    # Continue with the rescaled minimum step of the
+                    # checkpointed run
+                    min_step = self._restored_min_step
         else:
             self.adaptive_min_step = False
 
@@ -333,6 +339,7 @@ class SMCSampler(MCMCSampler):
                     min_step,
                     beta_tolerance=beta_tolerance,
                 )
+                self._current_min_step = min_step
                 self.history.eff_target.append(
                     self.current_target_efficiency(beta)
                 )
@@ -437,6 +444,7 @@ class SMCSampler(MCMCSampler):
             "history": history_copy,
             "rng_state": rng_state,
             "sampler_kwargs": getattr(self, "sampler_kwargs", None),
+            "min_step": self._current_min_step,
         }
 
     def restore_from_checkpoint(
@@ -451,6 +459,7 @@ class SMCSampler(MCMCSampler):
             beta = state.get("beta", 0.0)
         iteration = state.get("iteration", 0)
         self.history = state.get("history", SMCHistory())
+        self._restored_min_step = state.get("min_step")
         rng_state = state.get("rng_state")
         if rng_state is not None and hasattr(self.rng, "bit_generator"):
             self.rng.bit_generator.state = rng_state
